@@ -5,7 +5,7 @@
    ("integer only") reverse splits (their fraction test is not scale-free). *)
 From Coq Require Import List NArith ZArith QArith Qcanon Bool Lia.
 From ACB Require Import Base.Outcome Base.QcExtra Base.Fit Base.Arith Model.Tx Model.Ledger Model.Sfl
-     Model.DeltaList Proofs.Tactics Proofs.EraseRi Proofs.C15Scale Proofs.C02Scan Proofs.C01Refine.
+     Model.DeltaList Proofs.Tactics Proofs.EraseRi Proofs.C15Scale Proofs.C02Scan Proofs.C01Refine Proofs.AllAfter.
 Import ListNotations.
 Local Open Scope Qc_scope.
 
@@ -67,6 +67,11 @@ Section Scale.
     assert (E : a * f + b * f = (a + b) * f) by ring. rewrite E, leb0_sc.
     destruct (Qcleb 0 (a + b)); reflexivity.
   Qed.
+  Lemma all_after_sc a o n :
+    all_after exact (a * f) (o * f) (n * f) = map_res mulf (all_after exact a o n).
+  Proof. rewrite !all_after_exact. cbn [map_res]. f_equal. ring. Qed.
+  Lemma gez_unwrap_sc s x : gez_unwrap s (x * f) = map_res mulf (gez_unwrap s x).
+  Proof. unfold gez_unwrap. rewrite leb0_sc. destruct (Qcleb 0 x); reflexivity. Qed.
   Lemma gez_mul_sc_l a b : gez_mul exact (a * f) b = map_res mulf (gez_mul exact a b).
   Proof.
     unfold gez_mul, gez_unwrap. cbn [a_mul exact bind].
@@ -168,12 +173,12 @@ Section Scale.
   Lemma set_latest_sc st af v :
     set_latest exact (sc_state st) af (sc_status v) = map_res sc_state (set_latest exact st af v).
   Proof.
-    unfold set_latest, latest_for. cbn [a_add a_sub exact bind].
+    unfold set_latest, latest_for. rewrite !all_after_exact. cbn [bind].
     unfold sc_state at 1 2 3. cbn [ps_map ps_all]. rewrite alookup_sc.
     cbn [sc_status s_sh s_all s_acb].
-    assert (E : s_sh v * f + ps_all st * f
-                - match option_map sc_status (alookup (af_id af) (ps_map st)) with Some s => s_sh s | None => 0 end
-                = (s_sh v + ps_all st - match alookup (af_id af) (ps_map st) with Some s => s_sh s | None => 0 end) * f).
+    assert (E : ps_all st * f + (s_sh v * f
+                - match option_map sc_status (alookup (af_id af) (ps_map st)) with Some s => s_sh s | None => 0 end)
+                = (ps_all st + (s_sh v - match alookup (af_id af) (ps_map st) with Some s => s_sh s | None => 0 end)) * f).
     { destruct (alookup (af_id af) (ps_map st)); cbn [option_map sc_status s_sh]; ring. }
     rewrite E, eqb_sc.
     destruct (negb (Bool.eqb _ _)); [reflexivity|].
@@ -203,7 +208,8 @@ Section Scale.
     destruct (t_act t) as [n price com rate crate | n price com rate crate sp | amount rate
                           | n amount | post pre_ io]; cbn [scale_action sc_status s_sh s_all s_acb map_res].
     - rewrite !gez_add_sc, local_value_sc.
-      sstep. sstep. destruct (s_acb pre); cbn [bind map_res]; [|reflexivity].
+      sstep. rewrite all_after_sc. sstep. rewrite gez_unwrap_sc.
+      sstep. destruct (s_acb pre); cbn [bind map_res]; [|reflexivity].
       repeat sstep.
     - reflexivity.
     - destruct (s_acb pre); [|destruct (negb _); reflexivity].
@@ -214,10 +220,9 @@ Section Scale.
     - subst io. cbn [a_mul a_div exact]. destruct (Qceqb pre_ 0); cbn [bind map_res]; [reflexivity|].
       assert (E : s_sh pre * f * post / pre_ = s_sh pre * post / pre_ * f) by (unfold Qcdiv; ring).
       rewrite E. unfold gez_unwrap. rewrite leb0_sc.
-      destruct (Qcleb 0 (s_sh pre * post / pre_)); cbn [bind map_res a_sub a_add exact]; [|reflexivity].
-      assert (E2 : s_all pre * f + (s_sh pre * post / pre_ * f - s_sh pre * f)
-                   = (s_all pre + (s_sh pre * post / pre_ - s_sh pre)) * f) by ring.
-      rewrite E2, ltb_sc0. destruct (Qcltb _ 0); [reflexivity|].
+      destruct (Qcleb 0 (s_sh pre * post / pre_)); cbn [bind map_res]; [|reflexivity].
+      rewrite all_after_sc, all_after_exact. cbn [bind map_res].
+      rewrite ltb_sc0. destruct (Qcltb _ 0); [reflexivity|].
       rewrite !andb_false_r. cbn [map_res]. unfold sc_delta, mk_delta, sc_status. cbn. reflexivity.
   Qed.
 
@@ -239,9 +244,10 @@ Section Scale.
   Proof.
     unfold sell_core. cbn [a_sub exact bind sc_status s_sh s_all s_acb].
     assert (E1 : s_sh pre * f - n * f = (s_sh pre - n) * f) by ring.
-    assert (E2 : s_all pre * f - n * f = (s_all pre - n) * f) by ring.
-    rewrite E1, E2, !ltb_sc0.
-    destruct (Qcltb (s_sh pre - n) 0); [reflexivity|]. destruct (Qcltb (s_all pre - n) 0); [reflexivity|].
+    rewrite E1, !ltb_sc0.
+    destruct (Qcltb (s_sh pre - n) 0); [reflexivity|].
+    rewrite all_after_sc, all_after_exact. cbn [bind map_res]. rewrite ltb_sc0.
+    destruct (Qcltb _ 0); [reflexivity|].
     fold (sc_status pre). rewrite per_share_sc.
     destruct (per_share_acb exact pre) as [maps| |]; cbn [bind map_res]; try reflexivity.
     destruct maps as [acbps|]; cbn [option_map]; [|reflexivity].
